@@ -1043,10 +1043,8 @@ func lateConfigs() []Config {
 		{End: "done", Mix: "nested", Stops: 0, Late: true, Skip1: true},
 		{End: "done", Mix: "nested", Stops: 1, Late: true, Skip1: true},
 	}
-	if strings.Contains(os.Getenv("C17_EXTRA"), "late-alive") {
-		// not part of the check: the same schedule with a nested system that stays alive (Abort's other coin)
-		out = append(out, Config{End: "done", Mix: "nested", Stops: 0, Late: true, Skip1: true, NestedKind: "alive"})
-	}
+	// the same schedule with a nested system that stays alive (Abort's other coin: abort request first, or the late answer first)
+	out = append(out, Config{End: "done", Mix: "nested", Stops: 0, Late: true, Skip1: true, NestedKind: "alive"})
 	return out
 }
 
